@@ -29,7 +29,7 @@ from ..core.shrink import ShrinkBudget
 META: Dict[str, Any] = {
     "id": "C11",
     "level": "exploration",
-    "pools": [{"backend": "c"}, {"backend": "py"}],
+    "pools": [{"backend": "c"}, {"backend": "py"}, {"backend": "c", "optimize": 1}],
     "tiers": {
         "quick": {"runs": 2600, "chunk": 12, "wall": 80, "chunk_wall": 400},
         "thorough": {"runs": 120000, "chunk": 30, "wall": 1800, "chunk_wall": 900},
@@ -94,7 +94,7 @@ META_XHTML = "<p>a &amp; b &lt; c ä</p>"
 
 
 def pool_of(rs: int, index: int) -> int:
-    return h64("pool", rs) % 2
+    return h64("pool", rs) % 3
 
 
 # ------------------------------------------------------------------ seams
